@@ -137,6 +137,16 @@ CLAIMED["C20"] = (
     "Trusted: Lean kernel + propext/Classical.choice/Quot.sound; harness/c20.py (generators, adapter observing via len + indexing, token serialisation); opaque callables as a parameter; values restricted to None/int/str; str.lower as an ASCII + Latin-1 table checked per run; where/choose/nth/upto, Result.roots/parents, isin, matches, bool/float values and int/slice indexing are outside the model.",
     "DESIGN.md §6 C20")
 
+CLAIMED["C06"] = (
+    "Lean 4 model IV.Paths of provider validation, deny-list matching, the nine datasource factories, the serializers' destination rule and mangle_command; theorems by induction on component lists and factory loops; correspondence on real directory trees with kernel ground truth, an audit hook, a recording HostContext and file-system diffs around Hydration.dehydrate",
+    "Proof: the validate comparison accepts iff the resolved root is a component-wise prefix of the resolved path, incl. root '/' (accept_sound; acceptOld_witness documents the repaired defect), and every factory's file providers are contained; exact deny-match characterisation independent of set order; "
+    "no factory returns, opens or executes a denied entry under a host context (factories_respect_deny, trace_no_denied); a '..'-free relative path gives a destination under the output directory (dst_confined_partial); file relative_paths stay relative; a mangled name is a single path component; Hydration's own paths are confined. "
+    "Proved FALSE with a witness: confinement for arbitrary relative paths (dst_witness; known finding dotdot-destination). Tied (quick: ~20k comparisons): constructor outcomes, provider lists, open/exec traces, recorded relative_paths and created-file locations vs the model for all nine factories under host and archive contexts and six root spellings; primitives; apply_blacklist. "
+    "Partial: kernel path resolution and races between validate and open are runtime behaviour the model takes as parameters.",
+    "Trusted: Lean kernel + propext/Classical.choice/Quot.sound; harness/c06.py (generators, kernel-location ground truth via O_PATH + /proc/self/fd, canonicalisers, oracle); os.path.realpath = kernel resolution with no race (checked on every generated path); glob, exists/access/isdir, shlex/PATH lookup and the ignore regex are parameters; "
+    "\\w and isspace ASCII only; commands are recorded, not executed (except cp and grep); the deny clause is the string match the code documents.",
+    "DESIGN.md §6 C06")
+
 PENDING_REASON = "check not built yet in this round (planned: DESIGN.md §6); no claim is made until its model, theorems and correspondence run exist"
 
 
